@@ -180,13 +180,20 @@ def run(tier):
             # control dependence: Path::exists on the path taken from the context decides between "as written" and the directory search
             as_written = False
             for xbb, xt, xn, xtg in P.call_sites(pk):
-                if MU.callee_names(xt)[1] == "std::path::Path::exists":
+                if MU.callee_names(xt)[1] in ("std::path::Path::exists", "std::path::Path::is_file"):
                     l3, c3, calls3, p3 = MU.backward_slice(pb, xt["args"][:1])
                     sw = pb["blocks"][xt["target"]]["term"] if xt.get("target") is not None else None
                     if (1 in l3 or any(pl["local"] == 1 for pl in p3)) and sw is not None and sw["k"] == "switch":
                         as_written = True
             searched = any(n.endswith("BTreeSet::<T, A>::iter") for n in names) and "std::path::PathBuf::push" in names
-            rep.ob("C11.search|as-written", as_written, "the path as written is tried (Path::exists) before the include directories" if as_written else "the path as written is not tried")
+            rep.ob("C11.search|as-written", as_written, "the path as written is tried before the include directories" if as_written else "the path as written is not tried")
+            # what is looked for is a file: a probe that a directory of that name satisfies ends the search in front of the place where
+            # the file is
+            probes = [MU.callee_names(xt)[1].rsplit("::", 1)[-1] for xbb, xt, xn, xtg in P.call_sites(pk)
+                      if re.match(r"^std::path::Path::(exists|is_file|is_dir|try_exists|metadata|symlink_metadata)$", MU.callee_names(xt)[1])]
+            okp = bool(probes) and all(x == "is_file" for x in probes)
+            rep.ob("C11.search|probe-is-file", okp, "every place is probed for a file of that name (%d probes)" % len(probes) if okp else
+                   "the search probes with %s: a directory of the same name in an earlier place ends the search, and the file where it is documented to be found is never reached" % sorted(set(probes)))
             rep.ob("C11.search|directories", searched, "otherwise every directory of the include-path set is tried with the name appended" if searched else
                    "the include-path set is not searched (no iteration + PathBuf::push in the flow to File::open)")
             # parent directory of the file that was opened joins the set used for the nested parse
@@ -313,7 +320,7 @@ def run(tier):
     rep.ob("C11.exit|include-keeps-mode", inc == {("NewLine", False)}, "after .include the including file continues with the next line, whatever ended the included file" if inc == {("NewLine", False)} else
            ".include maps to mode %s" % inc)
     scan, effects, nscan = rules_C08.scan_table(P, rep)
-    ef = {a for c, z, a in scan.get("EndFile", [])}
+    ef = {a for c, z, a, w in scan.get("EndFile", [])}
     okx = len(ef) == 1 and list(ef)[0][0] == 'none'
     rep.ob("C11.exit|ends-loop-only", okx, "the EndFile mode just ends the line loop of the current file (skip returns None, parse_iter returns Ok)" if okx else
            "EndFile mode does %s" % ef)
